@@ -14,7 +14,8 @@ RULE = ('Hypothesis **kern scores organised in measures (kv/docgen.py measure_do
         'boundaries from the barline rows (+ pick-up) of the abstract document; the non-interpretation lines of the '
         'excerpt must be exactly the lines of the full export that belong to measures a..b plus the closing barline, '
         'unmodified and in order; lines before them are interpretations only; list(doc) == [1..M]; the single-measure '
-        'exports partition the data lines of the full export; the illegal shapes raise ValueError.  An evaluation is '
+        'exports partition the data lines of the full export; interleaved and nested iterations are independent; the '
+        'illegal shapes raise ValueError.  A second profile keeps splits open across barlines.  An evaluation is '
         'one (document, a, b); non-trivial when M >= 3 and 1 < a and b < M, or the score has a pick-up, or no final '
         'barline.')
 ASSUMPTIONS = ['measure numbering: barline rows open measures; a pick-up before the first barline is measure 1.  kernpy also '
@@ -24,9 +25,9 @@ ASSUMPTIONS = ['measure numbering: barline rows open measures; a pick-up before 
 
 
 @st.composite
-def cases(draw):
+def cases(draw, across=False):
     others = draw(st.booleans())
-    doc = draw(D.measure_documents(D.mprofile(others=others)))
+    doc = draw(D.measure_documents(D.mprofile(others=others, rejoin_before_bar=not across)))
     return {'doc': doc}
 
 
@@ -41,6 +42,18 @@ def check(case):
     M = len(B)
     if list(kdoc) != list(range(1, M + 1)):
         raise Bad('iteration', f'list(doc) = {list(kdoc)}, M = {M}')
+    # iterations are independent of one another: interleaved and nested
+    i1, i2 = iter(kdoc), iter(kdoc)
+    inter = []
+    for _ in range(M):
+        inter.append((next(i1, None), next(i2, None)))
+    if inter != [(k, k) for k in range(1, M + 1)] or next(i1, None) is not None:
+        raise Bad('iteration-shared', f'two iterators over the same document consumed side by side give {inter}')
+    nested = [(x, y) for x in kdoc for y in kdoc]
+    if nested != [(x, y) for x in range(1, M + 1) for y in range(1, M + 1)]:
+        raise Bad('iteration-nested', f'nested iteration over the document gives {nested[:6]}... ({len(nested)} pairs, M={M})')
+    if list(kdoc) != list(range(1, M + 1)):
+        raise Bad('iteration-repeat', 'second full iteration differs')
     if kdoc.get_first_measure() != 1:
         raise Bad('first-measure', f'{kdoc.get_first_measure()}')
     full = MS.aligned_full(doc, kdoc, a_, {'**kern'} if mixed else None, **kw)
@@ -91,7 +104,10 @@ def check(case):
 
 
 def run(ctx):
-    ctx.run_hypothesis(cases(), check, max_examples=150 if ctx.quick else 1200, label='measures')
+    n = 150 if ctx.quick else 1200
+    ctx.run_hypothesis(cases(), check, max_examples=n, label='measures')
+    # splits that stay open across barlines (barline rows wider than the header row)
+    ctx.run_hypothesis(cases(across=True), check, max_examples=max(50, n // 3), salt=1, label='split-across-barlines')
 
 
 def replay(case):
